@@ -160,7 +160,7 @@ PLANS = {
                  'acceptance tests, enumerators, minimisers, products, complement/reverse/prefix-free, conversions (nfa_to_dfa, dfa_to_regexp, regexp_to_nfa, cfg_to_chomsky and its phases, pda_to_cfg, PDA normal forms), '
                  'printers, generate_language, accept/reject checkers and ~14 text-level check_* functions with correct, perturbed and ill-formed answers; results join the pool and become operands; a quarter of the sessions use the alphabet {0,1}; made objects get twins that differ in one component only (q0, F, start variable, or for regexps the symbol 0/1 versus the constant 0/1 - same printed form); 5% of the steps edit a made object in place, by hand or through an *_in_place library function) executed by 5 replicas: '
                  '4 fresh interpreters with different PYTHONHASHSEED plus one with GambaTools.enable_logging=True; inside each replica the session runs in a pristine fork and one call in three and every text-level checker call is re-executed alone '
-                 '(arguments rebuilt from their pre-call snapshots) in another pristine fork. One evaluation = one operation call. Oracles: every pool object is re-snapshotted after every step (argument integrity); '
+                 '(arguments rebuilt from their pre-call snapshots) in another pristine fork. One evaluation = one operation call. Oracles: every pool object is re-snapshotted after every step (argument integrity); the ambient settings must have their entry values after every call; sampled calls are repeated at once on the same objects and must give the same outcome; '
                  'per-step outcome digests (exact language for DFA/NFA/regexp results, bounded language for CFG/PDA results, value for bools/sets, OK/not-OK for checkers, exception type) must agree across replicas, '
                  'between session and solo execution, and between logging on/off. distinct non-trivial = distinct (session, step) whose operand was produced by an earlier step or used before.'),
         'schedule_measure': 'distinct (session, hash seed, logging) executions',
